@@ -139,6 +139,11 @@ def run(ck):
     for q in ['[C;r5]=C', 'C=[C;r5]', '[N;r4]C=O', '[C;r6]C', '[C;r3,r4]', '[C;r5][C;r6]', '[C;r6][C;r5]', '[C;r3]1CC1', '[A;r5]~[A;r6]']:
         for t in ['C1=Cc2ccccc2C1', 'O=C1CC2N1CCS2', 'C1CC12CCCC2', 'C1CC2CCC1C2', 'C1CCC2CCCC2C1', 'c1ccc2c(c1)CCC2', 'C1CC2CC1CCC2']:
             cases.append({'key': f'{q}|{t}', 'q': q, 't': t, 'thiele': False, 'filter': False, 'scope': False, 'rs': rnd.randrange(1 << 30)})
+    # the ends of the ring-size field (sizes 3..65 have a bit each): macrocycles of 63..66 atoms, with a substituent outside the ring
+    for q in ['[C;r65]', '[C;r64]', '[C;r63]', '[C;!R]', '[C;r65]C', 'C[C;r64]', '[C;r3,r65]', '[O;!R]']:
+        for n in (63, 64, 65, 66):
+            t = 'OC1' + 'C' * (n - 1) + '1'
+            cases.append({'key': f'{q}|{t}', 'q': q, 't': t, 'thiele': False, 'filter': False, 'scope': False, 'rs': rnd.randrange(1 << 30)})
     # scoped searches on multi-component targets, also with multi-component queries (one scope mask per component)
     for q in ['CC', 'C.N', 'C.N.S', 'CC.CC', 'CO.CN', '[C;D1]', 'C~[A]', 'C.C']:
         for t in ['CCO.CCN', 'CCO.CCN.CCS', 'CC.CC.CC', 'CCOCC.NCCN', 'OCCO.OCCO', 'CCN.CCN.CCO.CCS']:
